@@ -213,6 +213,7 @@ def check(tree, rep, tier='quick', seed=0):
     from .. import corerules as R
     R.k30_form_loading_reentrant(get_core(tree), rep)
     R.k38_solver_object(get_core(tree), rep)
+    R.k13_add_form(get_core(tree), rep)     # the retry after 'unknown input name' finds the inputs registered: no early exit of _add_form before it told the store (unbounded recursion otherwise)
     rep.count('absent forms referenced', sorted(absent_seen))
 
 
